@@ -377,6 +377,26 @@ def standin_qudit_circuits(tier, seed):
             continue
         if not refsim.dist_close(d_in, d_out, atol=1e-6):
             fails.append(dict(args=dict(transformer="defer_measurements", circuit=repr(circ)), failed="meaning-changed", clause="defer_measurements changed the joint distribution of the records of a circuit on qutrits"))
+    # a key measured more than once (one instance mid-circuit and read by a control, one terminal; equal or different measurement operations; the
+    # terminal one before or after the deferred one in time): the records of the key come out in the order they were made (deterministic circuits)
+    qa, qb = cirq.LineQubit.range(2)
+    repeated = {
+        "deferred, then a terminal inverted measurement of the same key": cirq.Circuit(cirq.measure(qa, key="a"), cirq.X(qb).with_classical_controls("a"), cirq.measure(qa, key="a", invert_mask=(True,)), cirq.measure(qb, key="b")),
+        "deferred, then an EQUAL terminal measurement": cirq.Circuit(cirq.measure(qa, key="a"), cirq.X(qb).with_classical_controls("a"), cirq.X(qa), cirq.measure(qa, key="a"), cirq.measure(qb, key="b")),
+        "terminal measurement first, a non-terminal one of the same key later": cirq.Circuit(cirq.X(qa), cirq.measure(qa, key="a"), cirq.measure(qb, key="a"), cirq.X(qb)),
+        "two deferred and one terminal": cirq.Circuit(cirq.X(qa), cirq.measure(qa, key="a"), cirq.X(qb).with_classical_controls("a"), cirq.measure(qb, key="a"), cirq.X(qa).with_classical_controls("a"), cirq.measure(qa, key="a")),
+    }
+    for rname, circ in repeated.items():
+        cases += 1
+        try:
+            out = cirq.defer_measurements(circ)
+            want = {k: v.tolist() for k, v in cirq.Simulator(seed=1).run(circ, repetitions=2).records.items()}
+            got = {k: v.tolist() for k, v in cirq.Simulator(seed=1).run(out, repetitions=2).records.items()}
+        except Exception as ex:
+            fails.append(dict(args=dict(transformer="defer_measurements[repeated keys]", scenario=rname, circuit=repr(circ)), failed="raised-on-repeated-key", clause=f"defer_measurements raised {type(ex).__name__}: {ex}"))
+            continue
+        if got != want:
+            fails.append(dict(args=dict(transformer="defer_measurements[repeated keys]", scenario=rname, circuit=repr(circ), output=repr(out)[:1200]), failed="meaning-changed", clause=f"defer_measurements changed the records of a repeated key: {want} became {got}"))
     seen, uniq = set(), []
     for f in fails:
         if f["args"]["transformer"] not in seen:
